@@ -95,7 +95,9 @@ class World:
 
     # ---- outcomes of a pulse -----------------------------------------------------------------
     def outcomes(self, dev):
-        out = ["ok", "silent", "fallback", "none", "slow"] if self.dev[dev]["target"] == "playfield" else ["ok", "fallback", "none", "slow"]
+        # "late": the ball reaches the target's switch 0.2 s before the source's eject timeout, i.e. it is still inside the
+        # target's count-stability window when the source gives up waiting for the confirmation
+        out = ["ok", "silent", "fallback", "none", "slow"] if self.dev[dev]["target"] == "playfield" else ["ok", "fallback", "none", "slow", "late"]
         if not self.dev[dev].get("switches"):
             out.remove("none")      # a device without ball switches cannot see that its ball stayed: not judged
         return out
@@ -125,7 +127,7 @@ class World:
         self.failed_kicks[dev] = 0
         tgt = cfg["target"]
         fast = self.spec["pf_time"] if tgt == "playfield" else self.spec["transit_time"]
-        t = fast if outcome in ("ok", "silent") else cfg["eject_timeout"] + 1.0
+        t = fast if outcome in ("ok", "silent") else cfg["eject_timeout"] - 0.2 if outcome == "late" else cfg["eject_timeout"] + 1.0
         self._travel(dev, tgt, t, "silent" if outcome == "silent" else "hit")
 
     def _travel(self, src, dst, secs, kind):
